@@ -108,24 +108,30 @@ Definition log_name (n : name) : EM unit := fun s =>
 Definition enc_domain_name (n : name) : EM unit := _ <-- log_name n ;; enc_name_loop n [].
 
 (* ---- src/encode/rr/subtypes.rs ---- *)
-Fixpoint addr_prefix_loop (op : cmp) (step : N) (oct : bytes) (prefix : N) : res bytes :=
+(* octets.iter().rposition(|b| b != 0): index of the last octet that differs from zero *)
+Fixpoint addr_rposition (oct : bytes) : option N :=
   match oct with
-  | [] => Ok []
+  | [] => None
   | b :: r =>
-    if cmp_apply op prefix 8 then Ok [b]
-    else if prefix <? step then Panic SPrefixSub
-    else match addr_prefix_loop op step r (prefix - step) with
-         | Ok t => Ok (b :: t) | Err e => Err e | Panic x => Panic x | OutOfFuel => OutOfFuel
-         end
+    match addr_rposition r with
+    | Some i => Some (i + 1)
+    | None => if cmp_apply OP_enc_addr_significant b ENC_ADDR_SIGNIFICANT_ZERO then Some 0 else None
+    end
   end.
-Definition rr_address_with_prefix (a : addr) (prefix : N) : EM unit :=
-  match (if a_fam a =? 1 then addr_prefix_loop OP_enc_prefix4 ENC_PREFIX_STEP4 (a_oct a) prefix
-         else addr_prefix_loop OP_enc_prefix6 ENC_PREFIX_STEP6 (a_oct a) prefix) with
-  | Ok b => put b
-  | Err e => efail e
-  | Panic x => fun _ => EPanic x
-  | OutOfFuel => fun _ => EIllTyped
+(* .map_or(0, |i| i + 1) *)
+Definition addr_significant (oct : bytes) : N :=
+  match addr_rposition oct with
+  | Some i => i + ENC_ADDR_SIGNIFICANT_INC
+  | None => ENC_ADDR_SIGNIFICANT_NONE
   end.
+(* Encoder::rr_address_octets / rr_address_with_length:
+   for b in octets.iter().take(max(significant, minimum_length)): self.u8 of b *)
+Definition rr_address_with_length (a : addr) (minimum_length : N) : EM unit :=
+  put (takeN ((if ENC_ADDR_TAKE_MAX then N.max else N.min) (addr_significant (a_oct a)) minimum_length)
+             (a_oct a)).
+(* (usize::from(ecs.get_source_prefix_length()) + 7) / 8 *)
+Definition ecs_minimum_length (src pfx : N) : N :=
+  ((if ENC_ECS_LENGTH_OF_SOURCE then src else pfx) + ENC_ECS_LENGTH_ADD) / ENC_ECS_LENGTH_DIV.
 
 (* ---- generic field writer ---- *)
 Fixpoint emap {A} (f : A -> EM unit) (l : list A) : EM unit :=
@@ -182,7 +188,7 @@ Definition enc_ecs (e : ecs) : EM unit :=
   li <-- create_length_index ;;
   _ <-- eu16 (a_fam (e_addr e)) ;;
   _ <-- eu8 (e_src e) ;; _ <-- eu8 (e_scope e) ;;
-  _ <-- rr_address_with_prefix (e_addr e) (ecs_prefix e) ;;
+  _ <-- rr_address_with_length (e_addr e) (ecs_minimum_length (e_src e) (ecs_prefix e)) ;;
   set_length_index li.
 Definition enc_cookie (c : cookie) : EM unit :=
   _ <-- eu16 OPT_COOKIE ;;
@@ -210,7 +216,7 @@ Definition enc_apitem (i : apitem) : EM unit :=
   _ <-- eu8 (i_prefix i) ;;
   ali <-- buf_len ;;
   _ <-- eu8 0 ;;
-  _ <-- rr_address_with_prefix (i_addr i) (i_prefix i) ;;
+  _ <-- rr_address_with_length (i_addr i) ENC_APL_MINIMUM_LENGTH ;;
   set_address_length_index (i_neg i) ali.
 
 (* ---- SVCB ---- *)
